@@ -519,6 +519,7 @@ def cross_checks(pm, ctx):
     if not train:
         raise AnalysisError("anchor vanished: find_best_split call in Kauri.fit")
     if guard is None:
+        # the documented rejection is missing altogether: nothing relates the two hyper-parameters before training
         ctx.violation("C16-e", ku.relpath, "Kauri.fit", "min_samples_leaf/min_samples_split check",
                       "no raising check relating min_samples_leaf and min_samples_split", line=f.lineno)
     else:
